@@ -2,7 +2,7 @@
    Threshold.v.  [fops F] are the operations of an arbitrary field F; [zq q] those of Z modulo q. *)
 From Coq Require Import ZArith Znumtheory.
 From mathcomp Require Import all_ssreflect all_algebra ssrZ.
-From V.C13 Require Import Model ModInv Proofs Bridge Threshold.
+From V.C13 Require Import Model ModInv Proofs Bridge Threshold Group Select Compose Node.
 Import GRing.Theory.
 Local Open Scope ring_scope.
 Delimit Scope Z_scope with ZZ.
@@ -66,6 +66,94 @@ Theorem C13_collector_live :
   g_sig (grun (gen_new k) msgs) <> None.
 Proof. move=> F k dealers h msgs dk; exact: collector_live. Qed.
 Print Assumptions C13_collector_live.
+
+(* The code's own choice of shares (base.Rand.RandomPerm with arbitrary derived random numbers [js],
+   sort.Ints, getRandomKSignInfo's loop, both Go-map iteration orders [pi1], [pi2] arbitrary): k
+   pairwise distinct entries of the n-entry share map. *)
+Theorem C13_code_selection :
+  forall (n k : nat) (pi1 js pi2 : seq nat),
+  (k <= n)%N -> is_perm n pi1 -> is_perm k pi2 -> all (fun x => x < n)%N (take k js) ->
+  let sel := code_selection n k pi1 js pi2 in
+  [/\ size sel = k, uniq sel & all (fun x => x < n)%N sel].
+Proof. exact: code_selection_ok. Qed.
+Print Assumptions C13_code_selection.
+
+(* Headline: whichever k or more members answered ([arrived]: distinct positions in the member list, any
+   order), whatever RecoverGroupSignature's internal random choice and map orders, the recovered value
+   is the group key's signature. *)
+Theorem C13_any_responders :
+  forall (F : fieldType) (k : nat) (dealers : seq (seq F)) (ids : seq F)
+         (arrived pi1 js pi2 : seq nat) (h : F),
+  all (fun cs => size cs <= k)%N dealers ->
+  uniq ids -> uniq arrived -> all (fun i => i < size ids)%N arrived -> (k <= size arrived)%N ->
+  is_perm (size arrived) pi1 -> is_perm k pi2 ->
+  all (fun j => j < size arrived)%N (take k js) ->
+  let shares := map (fun z => member_key (fops F) dealers z * h) ids in
+  recover_sel (fops F) (code_selection (size arrived) k pi1 js pi2)
+              (pick 0 arrived ids) (pick 0 arrived shares)
+  = group_secret (fops F) dealers * h.
+Proof. move=> F k dealers ids arrived pi1 js pi2 h dk; exact: any_responders. Qed.
+Print Assumptions C13_any_responders.
+
+(* The same at the level of group elements: G1 any vector space over the scalar field (a group of
+   prime order), recoverSignature's literal loop (first term assigned, the others added) over the
+   share signatures key(id) *: H(m). *)
+Theorem C13_group_level :
+  forall (F : fieldType) (G : lmodType F) (k : nat) (dealers : seq (seq F)) (ids : seq F)
+         (sel : seq nat) (H : G),
+  all (fun cs => size cs <= k)%N dealers ->
+  uniq ids -> uniq sel -> all (fun i => i < size ids)%N sel -> (k <= size sel)%N ->
+  recover_sig (fops F) (lops G) (pick 0 sel ids)
+     (pick 0 sel (map (fun z => sign_g (lops G) (member_key (fops F) dealers z) H) ids))
+  = sign_g (lops G) (group_secret (fops F) dealers) H.
+Proof. move=> F G k dealers ids sel H dk; exact: dkg_recover_sig. Qed.
+Print Assumptions C13_group_level.
+
+(* Verification (G1, G2, GT vector spaces over F, e compatible with scalar multiplication in both
+   arguments, P2 the G2 base point; VerifySig: e(sig, P2) == e(H(m), pk)): every member's share
+   verifies under its public share, and the signature recovered from any k or more members in any
+   order verifies under the aggregated group public key (sum of the dealers' seed public keys). *)
+Theorem C13_share_verifies :
+  forall (F : fieldType) (G1 G2 GT : lmodType F) (e : G1 -> G2 -> GT) (P2 : G2),
+  (forall a x y, e (a *: x) y = a *: e x y) -> (forall a x y, e x (a *: y) = a *: e x y) ->
+  forall (dealers : seq (seq F)) (z : F) (hm : G1),
+  verify_g e P2 (pubkey_g P2 (member_key (fops F) dealers z)) hm
+           (sign_g (lops G1) (member_key (fops F) dealers z) hm).
+Proof. move=> F G1 G2 GT e P2 el er dealers z hm; exact: share_verifies. Qed.
+Print Assumptions C13_share_verifies.
+
+Theorem C13_recovered_verifies :
+  forall (F : fieldType) (G1 G2 GT : lmodType F) (e : G1 -> G2 -> GT) (P2 : G2),
+  (forall a x y, e (a *: x) y = a *: e x y) -> (forall a x y, e x (a *: y) = a *: e x y) ->
+  forall (k : nat) (dealers : seq (seq F)) (ids : seq F) (sel : seq nat) (hm : G1),
+  all (fun cs => size cs <= k)%N dealers ->
+  uniq ids -> uniq sel -> all (fun i => i < size ids)%N sel -> (k <= size sel)%N ->
+  verify_g e P2 (group_pubkey P2 dealers) hm
+    (recover_sig (fops F) (lops G1) (pick 0 sel ids)
+       (pick 0 sel (map (fun z => sign_g (lops G1) (member_key (fops F) dealers z) hm) ids))).
+Proof. move=> F G1 G2 GT e P2 el er k dealers ids sel hm dk; exact: recovered_verifies. Qed.
+Print Assumptions C13_recovered_verifies.
+
+(* Key generation, member side (handleSharePiece/aggregateKeys): pieces of the dealers [ds] = (id,
+   coefficients) arriving in any order, duplicates included ([msgs]: dealer index and the two Go-map
+   iteration orders of the aggregation loops): a member that completed holds sum_d f_d(x) and (in the
+   exponent) the group public key sum_d f_d(0); it completes once every dealer has been heard. *)
+Theorem C13_node_keys :
+  forall (F : fieldType) (x : F) (ds : seq (F * seq F)) (msgs : seq (nat * seq nat * seq nat)),
+  uniq (map fst ds) -> (0 < size ds)%N -> all (nmsg_ok ds) msgs ->
+  let nd := nrun x ds (node_new (fops F) (size ds)) msgs in
+  n_done nd ->
+  n_sk nd = member_key (fops F) (map snd ds) x /\ n_gpk nd = group_secret (fops F) (map snd ds).
+Proof. move=> F x ds msgs u; exact: node_keys. Qed.
+Print Assumptions C13_node_keys.
+
+Theorem C13_node_completes :
+  forall (F : fieldType) (x : F) (ds : seq (F * seq F)) (msgs : seq (nat * seq nat * seq nat)),
+  uniq (map fst ds) -> (0 < size ds)%N -> all (nmsg_ok ds) msgs ->
+  {subset iota 0 (size ds) <= map (fun m => m.1.1) msgs} ->
+  n_done (nrun x ds (node_new (fops F) (size ds)) msgs).
+Proof. move=> F x ds msgs u; exact: node_completes. Qed.
+Print Assumptions C13_node_completes.
 
 (* The executable instance.  big.Int.ModInverse as modelled (extended Euclid) never runs out of
    fuel and returns the inverse whenever there is one. *)
